@@ -184,7 +184,10 @@ CHECKS = {
     "C17": {
         "text": ("Proved on the model for all authorities/schemes/ports: parsed ports lie in 0..65535 else ValueError, the default table is the "
                  "stated one, port falls back only when absent, 0 is not absent, is_default_port and str() elide exactly the default, "
-                 "with_port rejects bools and out-of-range values. Exhaustive scheme x port x host x route matrix on the implementation."),
+                 "with_port rejects bools and out-of-range values; _cache_netloc, the explicit_port/raw_host getters, port, is_default_port, "
+                 "host_subcomponent and host_port_subcomponent of yarl/_url.py are re-translated from the source on every run and proved "
+                 "equal to the model's accessors (C17_source_*). Exhaustive scheme x port x host x route matrix on the implementation, "
+                 "through both constructor modes."),
         "design_ref": "DESIGN.md section 7 C17",
     },
     "C18": {
